@@ -48,6 +48,19 @@ CHECKS = {
         note=TB + " C03: translator harness/translate.py (fail-closed Python ast -> Gallina) is trusted; one-sided derivatives at knots where the object itself jumps (multiplicity >= order) "
                   "are excluded for rational objects (no derivative of the evaluated map exists there); tangent/normal normalisation is checked numerically only.",
         design='DESIGN.md section 8, C03'),
+    'C04': dict(
+        engine='basisdiff+objdiff',
+        technique='Coq proof (Boehm identity for arbitrary multiplicities; the matrix written by insert_knot has Boehm entries; lifting lemma for any pardim/direction) + Paramcoq transfer + differential run of the extracted transcription (incl. periodic ghost-knot repair) vs insert_knot/refine',
+        text=("Theorems in Properties/C04.v: Boehm's identity (both one-sided variants, every multiplicity); the three write loops of BSplineBasis.insert_knot produce exactly Boehm's "
+              "matrix on non-periodic bases (N_old = N_new x C for every t); the returned knot vector is sorted and is the old one plus the value; applying the matrix along any "
+              "direction of any-pardim control net leaves every coordinate (weights too) of the evaluation unchanged for every parameter. Periodic directions: PARTIAL - the "
+              "transcription (wrap, modular indices, both ghost-knot repairs) is tied to the code by correspondence, the geometric statement is checked by L2 only, and a "
+              "machine-checked refutation shows the repair is wrong for bases with fewer than order+continuity functions (recorded as a known finding). L2 evaluates the "
+              "statement on the implementation with the exact model evaluator: map before = map after at knots/mid-spans/random/wrapped parameters, knot multiset, shapes; "
+              "refine and the graded refinement utilities included."),
+        note=TB + " C04: periodic geometric statement not proved (only transcribed and tested); np.linspace spacing in refine is modelled exactly (cases use exactly representable spacings); "
+                  "graded refinement knot positions (tan/atan) are inputs, only the map/structure is checked.",
+        design='DESIGN.md section 8, C04'),
 }
 
 PENDING_REASON = "not claimed in this revision: model/theorems for this property are still being built (see DESIGN.md section 8 for the plan)"
